@@ -317,7 +317,7 @@ CHECK = {
     "props": "Props/C04.v",
     "theorems": ["c04_tc_on_the_octets", "c04_clause_iv", "c04_clause_iv_two_runs", "c04_endings_on_the_octets", "c04_only_optional_omitted_partial", "c04_glue_complete_partial", "c04_optional_only_partial", "c04_response_within_limit", "c04_tc_shape", "c04_limit_value", "c04_udp_response_size", "c04_udp_identical_when_fits_partial", "c04_writer_limit_monotone", "c04_oracle_tc_shape",
                  "c04_oracle_sizes_and_identity", "c04_signed_oracle_conservative", "c04_signed_oracle_sizes_and_identity",
-                 "c04_signed_oracle_tc_shape", "c04_signed_oracle_omission"],
+                 "c04_signed_oracle_tc_shape", "c04_signed_oracle_omission", "c04_signed_oracle_tsig_set_aside"],
     "allowed_axioms": [],
     "suites": [{
         "name": "pair", "impl_bin": "impl_c04", "extract": "Extract/ExC04.v", "driver": "run_c04.ml",
